@@ -23,3 +23,41 @@ Theorem C14_history_independent :
   /\ imm I InvT Key Ball (run I InvT Key Ball Q A P R key_eqb mk_inv mk_ball answer pure_op (fresh I InvT Key Ball i) ops) = i.
 Proof. exact history_independent. Qed.
 Print Assumptions C14_history_independent.
+
+From V Require Import Base Tensor Graph GraphProofs GraphImpl Hash Def Paths BfsStep Bfs BfsRun BfsProofs PathsProofs Mitm MitmProofs PathRun MitmFind Interactive InteractiveBetween InstPerm InstSmall InstBfs InstPaths.
+
+(* the graph / inverted-copy pair built by env_of from a well-formed permutation description: the copy hashes EVERY state like its origin (shared hasher and encoder), has the same central state, as many generators, and generator i of the copy undoes generator i of the origin on all states - no hashing assumption *)
+Theorem C14_perm_env_structural :
+  forall (d : gdesc) (inv_mats : list (list (list BinNums.Z))) (e : path_env),
+         wf_perm_desc d -> env_of d inv_mats = Some e -> path_structural e (Ustates d).
+Proof. exact @perm_env_structural. Qed.
+Print Assumptions C14_perm_env_structural.
+
+(* copies share hashes with their origin (inverted copy) *)
+Theorem C14_copy_shares_hashes :
+  forall (d : gdesc) (s : state),
+         wf_perm_desc d -> hashf (impl_of (desc_inv d)) s = hashf (impl_of d) s.
+Proof. exact @desc_inv_hash. Qed.
+Print Assumptions C14_copy_shares_hashes.
+
+From V Require Import Base Tensor Graph GraphProofs GraphImpl Hash Matrix MatrixProofs Def Paths BfsStep Bfs BfsRun BfsProofs PathsProofs Mitm MitmProofs PathRun MitmFind InstShared InstMatrix InstMatrixAlgebra InstMatrixBfs.
+
+(* ANY description (permutation or matrix): the inverted copy built by env_of hashes every state like its origin, has the same central state, the same identity-hash flag and decoder, and as many generators - copies share hashes with their origin so that results can be combined *)
+Theorem C14_env_of_shares :
+  forall (d : gdesc) (im : list (list (list BinNums.Z))) (e : path_env),
+         env_of d im = Some e ->
+         (forall s : state, hashf (pe_Ginv e) s = hashf (pe_G e) s) /\
+         central (pe_Ginv e) = central (pe_G e) /\
+         is_identity (pe_Ginv e) = is_identity (pe_G e) /\
+         (forall h : BinNums.Z, unword (pe_Ginv e) h = unword (pe_G e) h) /\
+         Datatypes.length (acts (pe_Ginv e)) = Datatypes.length (acts (pe_G e)).
+Proof. exact @env_of_shares. Qed.
+Print Assumptions C14_env_of_shares.
+
+(* a modified copy (other generators, same encoder and hasher) hashes every state like its origin, exactly when its rows are encoded alike *)
+Theorem C14_with_flag_shares_hash :
+  forall (d : gdesc) (k : gkind),
+         flag_rows_alike d k ->
+         forall s : state, hashf (impl_of (with_flag d k)) s = hashf (impl_of d) s.
+Proof. exact @with_flag_shares_hash. Qed.
+Print Assumptions C14_with_flag_shares_hash.
